@@ -804,6 +804,8 @@ def _run_object_table(ctx, rid, it, table, home_rel, only=None):
         bad = []
         unsupported = None
         for O in outers:
+            if len(O) < spec.get("min_rank", 0):
+                continue
             total += 1
 
             def mk(sp=spec, c=cls):
@@ -834,12 +836,24 @@ def _run_object_table(ctx, rid, it, table, home_rel, only=None):
                              else [mk()]) + a,
                     {k: arg(v) for k, v in kw.items()})
                 w = want(O)
-                if w and w[0] == "obj":
+                if w and w[0] in ("tuple", "value"):
+                    exp = tuple(w[1]) if w[0] == "tuple" else w[1]
+                    if got != exp:
+                        raise ShapeError(f"returned {got!r}, expected "
+                                         f"{exp!r}")
+                elif w and w[0] == "obj":
                     gs = got.proj_data.shape if isinstance(got, AObj) \
                         and isinstance(got.proj_data, AArr) else None
                     if gs != tuple(w[1]):
                         raise ShapeError(f"result object data {gs}, "
                                          f"expected {w[1]}")
+                    if len(w) > 2 and w[2] is not None:
+                        ga = got.aux_data.shape if isinstance(
+                            got.aux_data, AArr) else None
+                        if ga != tuple(w[2]):
+                            raise ShapeError(
+                                f"auxiliary data of the result {ga}, "
+                                f"expected {tuple(w[2])}")
                 elif w and isinstance(w[0], tuple):
                     gs = tuple(x.shape if isinstance(x, AArr) else
                                () if isinstance(x, AScal) else None
@@ -1045,3 +1059,183 @@ def rule_sh6(ctx, only=None):
     it.rel_prefix = {CP1: "", CORE: "utils", PROJ_REL: "projective"}
     it.ctor_model = _cp1_ctor
     return _run_object_table(ctx, "SH6", it, _sh6_table(), CP1, only)
+
+
+# ---------------------------------------------------------------------------
+# SH7: projective objects (reshape / flatten / index / coordinates)
+
+PROJ_UNITS = {"Point": (1, 0), "PointCollection": (2, 0),
+              "PointPair": (2, 0), "Polygon": (2, 3), "Subspace": (2, 0),
+              "Transformation": (2, 0), "ConvexPolygon": (2, 3),
+              "Simplex": (2, 0)}
+
+
+def _proj_ctor(it, cls, args, kw):
+    """Constructor model for projective.py: ProjectiveObject(...) keeps the
+    slots and ndims it is given; the named subclasses fix their unit rank
+    (PROJ_UNITS) and compute auxiliary data with their own
+    _compute_aux_data; Class(obj) re-labels obj's data."""
+    from ..shape import AObj
+    name = cls.name
+    if not args:
+        raise Unsupported(f"constructor {name} without data")
+    a0 = args[0]
+    if name == "ProjectiveObject":
+        if isinstance(a0, AObj):
+            o = a0.clone()
+            o.cls = cls
+            return o
+        if not isinstance(a0, AArr):
+            raise Unsupported(f"ProjectiveObject of {a0!r}")
+        aux = kw.get("aux_data", args[1] if len(args) > 1 else None)
+        dual = kw.get("dual_data", args[2] if len(args) > 2 else None)
+        und = kw.get("unit_ndims", 1)
+        aund = kw.get("aux_ndims", 0)
+        dund = kw.get("dual_ndims", 0)
+        if len(a0.shape) < und:
+            raise ShapeError(f"ProjectiveObject with unit_ndims={und} built "
+                             f"from an array of shape {a0.shape}")
+        if isinstance(aux, AArr) and len(aux.shape) < aund:
+            raise ShapeError(f"aux data of shape {aux.shape} with "
+                             f"aux_ndims={aund}")
+        if isinstance(aux, AArr) and isinstance(a0, AArr) and aund and \
+                aux.shape[:len(aux.shape) - aund] != \
+                a0.shape[:len(a0.shape) - und]:
+            raise ShapeError(
+                f"aux data of shape {aux.shape} (aux_ndims={aund}) does not "
+                f"have the composite shape of the data {a0.shape} "
+                f"(unit_ndims={und})")
+        return AObj(cls, proj=a0, aux=aux if aund else None,
+                    dual=dual if dund else None, unit_ndims=und,
+                    aux_ndims=aund, dual_ndims=dund)
+    if name not in PROJ_UNITS:
+        raise Unsupported(f"constructor {name}")
+    und, aund = PROJ_UNITS[name]
+    if isinstance(a0, AObj) and not (len(args) > 1 and isinstance(
+            args[1], (AArr, AObj))):
+        o = a0.clone()
+        o.cls = cls
+        o.unit_ndims = und
+        if aund and not isinstance(o.aux_data, AArr):
+            m = it.find_method(o, "_compute_aux_data")
+            o.aux_ndims = aund
+            o.aux_data = it.call_node(m, [o, o.proj_data])
+        elif not aund:
+            o.aux_data, o.aux_ndims = None, 0
+        return o
+    if name == "PointPair" and len(args) > 1 and isinstance(
+            args[1], (AArr, AObj)):
+        d0 = a0.proj_data if isinstance(a0, AObj) else a0
+        d1 = args[1].proj_data if isinstance(args[1], AObj) else args[1]
+        if d0.shape != d1.shape:
+            raise ShapeError(f"PointPair(p1, p2) with shapes {d0.shape} and "
+                             f"{d1.shape}")
+        a0 = AArr(d0.shape[:-1] + (2, d0.shape[-1]))
+    if not isinstance(a0, AArr):
+        raise Unsupported(f"constructor {name} of {a0!r}")
+    sh = a0.shape
+    if name == "Transformation":
+        if kw.get("column_vectors") or (len(args) > 1 and args[1] is True):
+            sh = sh[:-2] + (sh[-1], sh[-2])
+        if len(sh) < 2 or sh[-1] != sh[-2]:
+            raise ShapeError(f"Transformation built from an array of shape "
+                             f"{sh}")
+    if len(sh) < und:
+        raise ShapeError(f"{name} built from an array of shape {sh}: fewer "
+                         f"than its {und} unit axes")
+    o = AObj(cls, proj=AArr(sh), unit_ndims=und)
+    if aund:
+        aux = kw.get("aux_data", args[1] if len(args) > 1 else None)
+        o.aux_ndims = aund
+        if isinstance(aux, AArr):
+            o.aux_data = aux
+        else:
+            m = it.find_method(o, "_compute_aux_data")
+            o.aux_data = it.call_node(m, [o, o.proj_data])
+    return o
+
+
+def _sh7_table():
+    N, N1 = ("n",), ("n-1",)
+    pt = dict(cls="Point", proj=N, und=1)
+    pp = dict(cls="PointPair", proj=(2, "n"), und=2)
+    poly = dict(cls="Polygon", proj=("k", "n"), aux=("k", 2, "n"), und=2,
+                aund=3)
+    tr = dict(cls="Transformation", proj=("n", "n"), und=2)
+    t = []
+    for nm, sp, unit, aux in (("Point", pt, N, None),
+                              ("PointPair", pp, (2, "n"), None),
+                              ("Polygon", poly, ("k", "n"), ("k", 2, "n")),
+                              ("Transformation", tr, ("n", "n"), None)):
+        t.append((f"{nm}.shape", sp, "shape", [], {},
+                  lambda O: ("tuple", O)))
+        t.append((f"{nm}.flatten_to_unit", sp, "flatten_to_unit", [], {},
+                  (lambda unit, aux: lambda O: ("obj", (_flat(O),) + unit,
+                                                (_flat(O),) + aux if aux
+                                                else None))(unit, aux)))
+        t.append((f"{nm}.reshape", sp, "reshape", [("M1", "M2")], {},
+                  (lambda unit, aux: lambda O: ("obj", ("M1", "M2") + unit,
+                                                ("M1", "M2") + aux if aux
+                                                else None))(unit, aux)))
+        t.append((f"{nm}.astype", sp, "astype", ["float64"], {},
+                  (lambda unit, aux: lambda O: ("obj", O + unit,
+                                                O + aux if aux
+                                                else None))(unit, aux)))
+        t.append((f"{nm}.__getitem__", dict(sp, min_rank=1), "__getitem__",
+                  [0], {},
+                  (lambda unit, aux: lambda O: ("obj", O[1:] + unit,
+                                                O[1:] + aux if aux
+                                                else None))(unit, aux)))
+        t.append((f"{nm}.__len__", dict(sp, min_rank=1), "__len__", [], {},
+                  lambda O: ("value", O[0])))
+    t.append(("Point.projective_coords", pt, "projective_coords", [], {},
+              lambda O: O + N))
+    t.append(("Point.affine_coords", pt, "affine_coords", [], {},
+              lambda O: O + N1))
+    t.append(("Point.affine_coords(chart 1)", pt, "affine_coords", [],
+              {"chart_index": 1}, lambda O: O + N1))
+    t.append(("Point.in_affine_chart", pt, "in_affine_chart", [0], {},
+              lambda O: O))
+    t.append(("PointPair.get_endpoints", pp, "get_endpoints", [], {},
+              lambda O: ("obj", O + (2, "n"), None)))
+    t.append(("PointPair.endpoint_affine_coords", pp,
+              "endpoint_affine_coords", [], {}, lambda O: O + (2, "n-1")))
+    t.append(("PointPair.endpoint_projective_coords", pp,
+              "endpoint_projective_coords", [], {},
+              lambda O: O + (2, "n")))
+    t.append(("Polygon.get_edges", poly, "get_edges", [], {},
+              lambda O: ("obj", O + ("k", 2, "n"), None)))
+    t.append(("Polygon.get_vertices", poly, "get_vertices", [], {},
+              lambda O: ("obj", O + ("k", "n"), None)))
+    t.append(("Polygon.in_standard_chart", poly, "in_standard_chart", [],
+              {}, lambda O: O))
+    t.append(("Polygon._compute_aux_data", poly, "_compute_aux_data",
+              [dict(arr=("k", "n"))], {}, lambda O: O + ("k", 2, "n")))
+    t.append(("Transformation.inv", tr, "inv", [], {},
+              lambda O: ("obj", O + ("n", "n"), None)))
+    t.append(("Transformation.diagonalize", tr, "diagonalize", [], {},
+              lambda O: ("obj", O + ("n", "n"), None)))
+    t.append(("affine_coords", dict(cls=None), "affine_coords",
+              [dict(arr=N)], {"chart_index": 0}, lambda O: O + N1))
+    t.append(("projective_coords", dict(cls=None), "projective_coords",
+              [dict(arr=N1)], {}, lambda O: O + N))
+    t.append(("projective_coords(chart 1)", dict(cls=None),
+              "projective_coords", [dict(arr=N1)], {"chart_index": 1},
+              lambda O: O + N))
+    return t
+
+
+def rule_sh7(ctx, only=None):
+    r = ctx.r
+    r.rule("SH7", "reshape / flatten_to_unit / indexing / len / astype and "
+                  "the coordinate accessors of the projective objects, "
+                  "interpreted on abstract objects with one, two and three "
+                  "data slots: the composite axes are rearranged as "
+                  "documented and every slot keeps its own unit axes")
+    core = ctx.p.module_by_rel(CORE)
+    proj = ctx.p.module_by_rel(PROJ_REL)
+    it = Interp(proj.tree, extra_trees=(("utils", core.tree),))
+    it.project = ctx.p
+    it.rel_prefix = {PROJ_REL: "", CORE: "utils"}
+    it.ctor_model = _proj_ctor
+    return _run_object_table(ctx, "SH7", it, _sh7_table(), PROJ_REL, only)
